@@ -5,7 +5,8 @@ PROP = {'streams': [('c06', 6000, 500000)],
          'clauses, annotations with escapes, both slots) and policy sets of 1-4 of them with 1-2 links per template, plus hand-built EST JSON '
          'policies (every operator key, Value escapes, odd-but-accepted and rejected shapes); per policy: JSON via CST->EST and AST->EST, '
          'to_json/from_json, PST, protobuf, responses on 3 worlds, printed-text re-parse; model lines: (est to)=from_json, (est of)=to_json, (estpol '
-         'to)=policy-level from_json; non-trivial = condition with >=4 subexpressions, every hand-built JSON policy, every set with links',
+         'to)=policy-level from_json; non-trivial = condition with >=4 subexpressions, every hand-built JSON policy, every set with links'
+         "; hand-built JSON, 30% in template mode: slots in most scope constraints, 20% of them the OTHER variable's slot, 12% both swapped; a fixed grid of 81 JSON templates (== / in / is-in on principal and resource x own / wrong / swapped slot); every accepted JSON template is linked on 3 worlds x up to 4 pairs of distinct slot values (request principal/resource, swapped, their ancestors): the linked policy vs Policy::from_json(linked.to_json()) and vs the same link of the template parsed from the printed Cedar text, on evaluation outcome and authorization response",
  'theorems': ['est_roundtrip', 'est_policy_roundtrip', 'est_eval', 'pst_roundtrip_partial', 'proto_roundtrip_partial',
               'pst_template_roundtrip', 'pst_template_encodable', 'pst_clauses_in_order', 'pst_policy_roundtrip', 'pst_link_roundtrip',
               'proto_template_roundtrip', 'proto_link_roundtrip', 'proto_link_roundtrip_anyorder', 'proto_link_lookup',
